@@ -37,6 +37,7 @@ GROUPS = [
     ('rules_checkers', 'rule_file_checkers'),
     ('rules_crash', 'rule_crash'),
     ('rules_crash', 'rule_stale_residue'),
+    ('rules_c20', 'rule_c20'),  # last: also adds the C20 tag to the rules listed in rules_c20.ALSO_C20
 ]
 
 
@@ -49,7 +50,13 @@ def load_groups():
 
 
 def run_all(facts_dir, only=None):
-    F = Facts(facts_dir)
+    return _run_on(Facts(facts_dir), only)
+
+
+ALL_PROPS = tuple('C%02d' % i for i in range(1, 21))
+
+
+def _run_on(F, only=None):
     R = Report()
     try:
         roles = Roles(F)
@@ -69,4 +76,79 @@ def run_all(facts_dir, only=None):
     return F, roles, R
 
 
-ALL_PROPS = tuple('C%02d' % i for i in range(1, 21))
+class MergedReport(Report):
+    """Per property, the obligations of the view chosen for that property (see run_best)."""
+
+    def __init__(self, per_prop, chosen):
+        self.per_prop = per_prop
+        self.chosen = chosen
+        self._seen = set()
+
+    @property
+    def obs(self):
+        out = []
+        for p in sorted(self.per_prop):
+            out.extend(self.per_prop[p])
+        return out
+
+    @obs.setter
+    def obs(self, v):  # selftest filters recorded findings out of the list
+        keep = {id(o) for o in v}
+        for p in self.per_prop:
+            self.per_prop[p] = [o for o in self.per_prop[p] if id(o) in keep]
+
+    def ob(self, rule, key, ok, msg, where='', props=(), witness=None, status=None):
+        for p in props:
+            lst = self.per_prop.setdefault(p, [])
+            hit = [o for o in lst if (o['rule'], o['key']) == (rule, key)]
+            if hit:
+                if not ok and hit[0]['ok']:
+                    hit[0].update(ok=False, msg=msg, where=where, witness=witness, status=status or 'VIOLATION')
+                continue
+            lst.append(dict(rule=rule, key=key, ok=bool(ok), msg=msg, where=where, props=(p,), witness=witness, status=status or ('ok' if ok else 'VIOLATION')))
+        return ok
+
+    def for_prop(self, prop):
+        return list(self.per_prop.get(prop, []))
+
+
+def _known_keys():
+    import check as checkmod
+    return set(checkmod.load_known())
+
+
+def run_best(facts_dir):
+    """Analyse the raw program and, if some obligation fails there and the tree contains helper functions that the pinned
+    tree does not have, the normalised view in which those helpers are inlined into their callers (flatten.py). Both views
+    are the same program; per property the view with the fewest failing obligations is reported (the raw view on a tie), so
+    a property passes iff its complete rule set - floors included - holds in at least one view.
+    Returns (F_raw, roles_raw, MergedReport, info)."""
+    import flatten
+    F0, roles0, R0 = run_all(facts_dir)
+    info = {'views': ['raw'], 'inlined_helpers': {}, 'chosen': {}}
+    views = [('raw', R0)]
+    try:
+        known = _known_keys()
+    except Exception:
+        known = set()
+
+    def nfail(R, p):
+        return sum(1 for o in R.for_prop(p) if not o['ok'] and (p, '%s|%s' % (o['rule'], o['key'])) not in known)
+    if any(nfail(R0, p) for p in ALL_PROPS):
+        try:
+            cands = flatten.helper_candidates(F0)
+            if cands:
+                F1, rep = flatten.flatten(F0, set(cands))
+                _, _, R1 = _run_on(F1)
+                views.append(('helpers-inlined', R1))
+                info['views'].append('helpers-inlined')
+                info['inlined_helpers'] = rep
+        except Exception as e:  # the normalised view is an extra; a failure here leaves the raw verdict
+            info['flatten_error'] = '%r\n%s' % (e, traceback.format_exc())
+    per_prop, chosen = {}, {}
+    for p in ALL_PROPS:
+        best = min(range(len(views)), key=lambda i: (nfail(views[i][1], p), i))
+        chosen[p] = views[best][0]
+        per_prop[p] = [dict(o, props=(p,)) for o in views[best][1].for_prop(p)]
+    info['chosen'] = chosen
+    return F0, roles0, MergedReport(per_prop, chosen), info
